@@ -257,6 +257,19 @@ PROPS["C20"] = {
     "level_note": "Line breaks inside literals are outside the property (the console turns a break into a space by design); no backslashes in literals; inputs stay below the terminal's 4096-rune line limit. ErrPasteIndicator is treated as 'line data returned' as x/term documents.",
 }
 
+PROPS["C13"] = {
+    "kind": "harness", "test": "TestC13", "level": "exploration", "race": True,
+    "tiers": tiers(4, 8, 24, 16, qtimeout=900, ttimeout=3000),
+    "rule": "rapid-generated schedules: 6-14 statements (CREATE TABLE, INSERT, UPDATE, DELETE, SELECT) run through a Session with the REAL 100 ms flush timer in a binary built with -race; for up to 4 generated statements the verif hook parks the session goroutine for 120-350 ms (1-3 ticks) "
+            "at the statement's log write (all its page changes done, log append pending) or, for statements that do not log, at a generated cache access; generated idle gaps of 0-150 ms let ticks land before, inside and after statements. "
+            "Oracles: (1) monitor: while a statement is parked no flush, page write or header write may happen on another goroutine; (2) every race-detector report with one side inside engine.EvaluateCreateTable/Insert/Update/Delete/Select and the other inside the flusher is a violation "
+            "(other reports, e.g. USE racing the timer, are counted as out of scope); (3) table contents equal the model afterwards. Non-trivial: a DDL/DML statement was parked and the flusher demonstrably waited (it flushed within 60 ms after the park ended); distinct by schedule JSON.",
+    "technique": "schedule-controlled testing: generated delay injection through build-tag hooks + happens-before race detection (-race) as a sanitizer, scoped to the property",
+    "level_text": "The weakest check: a few dozen harness-owned schedules; happens-before detection does not depend on the observed timing, parking makes the overlapping accesses actually occur. Interleavings the parked schedules never bring together are missed; failures do not shrink.",
+    "level_note": "Wall-clock time decides only WHICH schedules are exercised, never the verdict. Trusted: the hook placement (before log writes, inside flushPages under the lock, in setCache), Go's race detector.",
+    "assumptions": ["the race detector sees every conflicting access pair that actually executes without a happens-before edge"],
+}
+
 HOOK_COMMITS = ["7ca683e"]
 
 NOT_APPLICABLE = {}
